@@ -723,7 +723,7 @@ func init() {
 	core.Register(&core.Check{
 		ID:          "C17",
 		Level:       "exploration",
-		Rule:        "file names enumerated exhaustively (every string of <=4 (thorough 5) symbols over {a Z 0 _ g r . / \\ NUL space ~ 0xFF}, bare and with .gr) x {save(name), load(name), image.new+image.save(name)} x configurations {restricted, empty-only, load/save disabled}, one child process per configuration and shard, each in its own scratch tree with sentinel files (each defining a recognisable binding) at every location a short name can spell (parent and root directories, sub-directories, names without the suffix, other suffixes). Oracle: after every call the snapshot (names, sizes, content hashes) of the whole scratch tree differs from the previous one only by the one file the reference verdict allows (X.gr in cwd with X alphanumeric/underscore, .gr in empty-only mode, grol.png for image.save); a call that returned an error changed nothing; a rejected name is rejected and an accepted one accepted exactly per the reference verdict; after load no sentinel binding from outside the allowed file is defined; exec/run (and save/load when disabled) are unbound; second layer: the child runs under strace -f and every path opened for writing/creation/rename/unlink and every non-system path opened for reading after a start marker lies in cwd and has the allowed form. Unrestricted mode is run as positive control (the oracle must flag its escapes). Non-trivial = every (name, configuration).",
+		Rule:        "file names enumerated exhaustively (every string of <=4 (thorough 5) symbols over {a Z 0 _ g r . / \\ NUL space ~ 0xFF}, bare and with .gr) x {save(name), load(name), image.new+image.save(name)} x configurations {restricted, empty-only, load/save disabled}, one child process per configuration and shard, each in its own scratch tree with sentinel files (each defining a recognisable binding) at every location a short name can spell (parent and root directories, sub-directories, names without the suffix, other suffixes). Oracle: after every call the snapshot (names, sizes, content hashes) of the whole scratch tree differs from the previous one only by the one file the reference verdict allows (X.gr in cwd with X alphanumeric/underscore, .gr in empty-only mode, grol.png for image.save); a call that returned an error changed nothing; a rejected name is rejected and an accepted one accepted exactly per the reference verdict; after load no sentinel binding from outside the allowed file is defined; exec/run (and save/load when disabled) are unbound; second layer: the child runs under strace -f and every path opened for writing/creation/rename/unlink and every non-system path opened for reading after a start marker lies in cwd and has the allowed form. Unrestricted mode is run as positive control (the oracle must flag its escapes). Non-trivial = every (name, configuration). The <=3-symbol names are explored again in children that call extensions.Init a second time with every other configuration (the first configuration must stay in force).",
 		Assume:      []string{"strace is available (if not the second layer is skipped and noted)"},
 		QuickCap:    100 * time.Second,
 		ThoroughCap: 20 * time.Minute,
